@@ -128,6 +128,26 @@ def _gen(rng, tier):
             'grow': rng.random() < 0.25}
 
 
+def _defined_everywhere(sc):
+    """reference definedness of the formula on the whole log and on its truncations (only consulted when a real call raised)"""
+    ast = sc['ast']
+    if not sc['dense']:
+        return common.ref_defined_on_prefixes([ast], sc['data'], sc['n'])
+    sig = sc['signals']
+    if not common.ref_defined([ast], True, sig):
+        return False
+    if sc.get('long_log'):
+        return True
+    vs = sc['vars']
+    cuts = [dict((v, len([x for x in sig[v] if x[0] <= t])) for v in vs) for t in sorted(set(x[0] for v in vs for x in sig[v]))]
+    cuts += list(sc.get('percuts', []))
+    for c in cuts:
+        w1 = dict((v, sig[v][:c[v]]) for v in vs)
+        if all(w1[v] for v in sg.vars_of(ast)) and not common.ref_defined([ast], True, w1):
+            return False
+    return True
+
+
 def eqn(a, b):
     return M.num_eq(a, b) or (a != a and b != b)
 
@@ -275,6 +295,12 @@ def run(sc):
                     nontriv = True
             r.probes['dense_time'] += 1
     except M.ApiCrash as e:
+        if not _defined_everywhere(sc):
+            # the formula has no defined value (NaN: inf - inf inside iff / xor / arithmetic, a domain error) on the log or on one
+            # of its truncations: outside the numeric envelope (DESIGN 3.6); an exception there says nothing about the property
+            # (thorough tier, VERIF_SEED 0, run 1178: xor of two warming-up once[0.25,0.25] in dense time - DESIGN 8.2)
+            r.discarded = True
+            return r
         r.crashes[e.exc_type] += 1
         r.violate('evaluate-raised', spec=text, **e.describe())
         return r
